@@ -14,6 +14,9 @@ import ast
 
 from ..core import AnalysisError, norm, loc, walk_no_nested, attr_chain, call_name, kwarg
 from ..flags import check_flag_scope
+from ..core import Unfoldable, func_params
+from ..normalize import inline, local_env, expand, canon, ctext, conjuncts, eval_test, Unknown, _enclosing
+from .. import flow
 
 CBM = 'fim.graph.resources.neo4j_cbm:Neo4jCBMGraph'
 ABCCBM = 'fim.graph.resources.abc_cbm:ABCCBMPropertyGraph'
@@ -68,6 +71,16 @@ def run(prog, rep):
             elif recv not in temp_vars and recv != 'self':
                 rep.violation('R1', loc(mod, c), 'Neo4jCBMGraph.merge_adm', norm(c, 110),
                               f'{c.func.attr} applied to `{recv}`, which is neither the temporary clone nor the combined model')
+    # what is merged into the combined model is the re-keyed temporary clone, never the source itself
+    for c in walk_no_nested(ma):
+        if isinstance(c, ast.Call) and call_name(c) in ('_update_node_delegations', 'merge_nodes', 'find_matching_nodes'):
+            other = kwarg(c, 'adm') or kwarg(c, 'other_graph') or (c.args[-1] if c.args else None)
+            rep.instance('R1', f'merge_adm: {call_name(c)}(... {norm(other) if other is not None else None})')
+            if not (isinstance(other, ast.Name) and other.id in temp_vars):
+                rep.violation('R1', loc(mod, c), 'Neo4jCBMGraph.merge_adm', f'{call_name(c)} is given {norm(other) if other is not None else None}',
+                              f'{call_name(c)} must work on the temporary clone whose delegations were re-keyed to the id of the contributing '
+                              f'model; given the source model itself, its delegations are still keyed by their original key (and merge_nodes would '
+                              f'contract nodes of the source): the combined model then depends on merge order and unmerge cannot remove them')
     clone = [c for c in walk_no_nested(ma) if isinstance(c, ast.Call) and call_name(c) == 'clone_graph']
     rep.instance('R1', f'merge_adm: works on {norm(clone[0], 80) if clone else "no clone"}')
     if not clone or ast.unparse(clone[0].func.value) != src_param:
@@ -104,6 +117,34 @@ def run(prog, rep):
             rep.violation('R2', loc(mod, ma), 'Neo4jCBMGraph.merge_adm', f'{k} not recorded', f'merge no longer records the {k}')
 
     # ---- R3 ----
+    def fold_prop(e):
+        try:
+            v = prog.const_eval(e, mod, cbm)
+            return v if isinstance(v, str) else None
+        except Exception:
+            return None
+
+    def prop_sources(fn, name):
+        """property names a local `name` ranges over: literal list of constants, or the keys of a class-level dict constant"""
+        out = set()
+        for l in ast.walk(fn):
+            if isinstance(l, ast.For) and any(isinstance(x, ast.Name) and x.id == name for x in ast.walk(l.target)):
+                it = l.iter
+                if isinstance(it, (ast.List, ast.Tuple)):
+                    out |= {fold_prop(e) for e in it.elts}
+                else:
+                    base = it.func.value if isinstance(it, ast.Call) and call_name(it) in ('items', 'keys') else it
+                    try:
+                        d = prog.const_eval(base, mod, cbm)
+                        if isinstance(d, dict):
+                            first = isinstance(l.target, ast.Name) or (isinstance(l.target, ast.Tuple) and isinstance(l.target.elts[0], ast.Name) and l.target.elts[0].id == name)
+                            out |= {k for k in d.keys() if isinstance(k, str)} if first else set()
+                        elif isinstance(d, (list, tuple, set)):
+                            out |= {k for k in d if isinstance(k, str)}
+                    except Exception:
+                        pass
+        return {x for x in out if x}
+
     def written_props(fns):
         out = set()
         for fn in fns:
@@ -111,19 +152,26 @@ def run(prog, rep):
                 if isinstance(c, ast.Call) and call_name(c) in ('update_nodes_property', 'update_node_property'):
                     pn = kwarg(c, 'prop_name')
                     if pn is not None:
-                        out.add(ast.unparse(pn).split('.')[-1])
-                if isinstance(c, ast.For) and isinstance(c.iter, (ast.List, ast.Tuple)) and 'DELEGATIONS' in ast.unparse(c.iter):
-                    for e in c.iter.elts:
-                        out.add(ast.unparse(e).split('.')[-1])
+                        v = fold_prop(pn)
+                        if v:
+                            out.add(v)
+                        elif isinstance(pn, ast.Name):
+                            out |= prop_sources(fn, pn.id)
+                if isinstance(c, ast.Assign) and isinstance(c.targets[0], ast.Subscript) and isinstance(c.targets[0].slice, ast.Name):
+                    out |= prop_sources(fn, c.targets[0].slice.id)
         return out
     w = written_props([ma, und])
     h = written_props([um])
     for n in ast.walk(um):
-        if isinstance(n, ast.Subscript) and 'PROP_' in ast.unparse(n.slice):
-            h.add(ast.unparse(n.slice).split('.')[-1])
+        if isinstance(n, ast.Subscript):
+            v = fold_prop(n.slice)
+            if v:
+                h.add(v)
+            elif isinstance(n.slice, ast.Name):
+                h |= prop_sources(um, n.slice.id)
     for p in sorted(w):
-        rep.instance('R3', f'merge writes {p}; unmerge handles it: {p in h or p == "GRAPH_ID"}')
-        if p != 'GRAPH_ID' and p not in h:
+        rep.instance('R3', f'merge writes {p}; unmerge handles it: {p in h or p == "GraphID"}')
+        if p != 'GraphID' and p not in h:
             rep.violation('R3', loc(mod, um), 'Neo4jCBMGraph.unmerge_adm', f'{p} written by merge, not handled by unmerge',
                           f'merge writes property {p} but unmerge never touches it: merge followed by unmerge does not restore '
                           f'the previous combined model')
@@ -216,6 +264,35 @@ def run(prog, rep):
     rep.instance('R6', f'unmerge: {norm(rbid[0]) if rbid else "?"}')
     if not rbid or ast.unparse(rbid[0].args[0]) != gid:
         rep.violation('R6', loc(mod, um), 'Neo4jCBMGraph.unmerge_adm', 'delegations of the model not removed', 'delegations keyed by the unmerged model id must be removed')
+    # what unmerge leaves behind when the last delegation of a node is gone must read back as "no delegations"
+    dcls = prog.module('fim.slivers.delegations').classes['Delegations']
+    dfj = inline(prog, dcls, dcls.methods['from_json'])
+    jparam = [p_ for p_ in func_params(dfj) if p_ not in ('cls', 'atype')][0]
+    absent_guards = [n for n in dfj.body if isinstance(n, ast.If) and any(isinstance(x, ast.Return) and (x.value is None or (isinstance(x.value, ast.Constant) and x.value.value is None))
+                                                                          for x in n.body)]
+    if not absent_guards:
+        raise AnalysisError('Delegations.from_json: absent-value guard not found')
+
+    def reads_back_absent(value):
+        fold = lambda e: prog.const_eval(e, dcls.module, dcls)
+        try:
+            return bool(eval_test(canon(absent_guards[0].test), {jparam: value}, fold))
+        except Unknown:
+            return None
+    for c in ast.walk(um):
+        if isinstance(c, ast.Call) and call_name(c) == 'update_node_property':
+            pn, pv = kwarg(c, 'prop_name'), kwarg(c, 'prop_val')
+            names = {fold_prop(pn)} if pn is not None and fold_prop(pn) else (prop_sources(um, pn.id) if isinstance(pn, ast.Name) else set())
+            if not names & {'LabelDelegations', 'CapacityDelegations'}:
+                continue
+            ok_ = isinstance(pv, ast.Constant) and isinstance(pv.value, str) and reads_back_absent(pv.value) is True
+            rep.instance('R6', f'unmerge: delegation property left as {norm(pv)} once the model\'s delegations are removed; reads back as absent: {ok_}')
+            if not ok_:
+                rep.violation('R6', loc(mod, c), 'Neo4jCBMGraph.unmerge_adm', f'delegation property rewritten as {norm(pv, 60)}',
+                              f'after the delegations of the unmerged model are removed nothing is left on the node (anything else is rejected just '
+                              f'above), and the property is written as {norm(pv, 60)}: unless that is a value Delegations.from_json reads back as '
+                              f'"no delegations" (None, empty text), the node still looks delegated to merge - merging the same or another model '
+                              f'that delegates on this node then fails with "delegations from both CBM and ADM", i.e. unmerge is not the inverse of merge')
     # guard: only nodes to which the model contributed are touched
     ing = [n for n in ast.walk(um) if isinstance(n, ast.If) and ast.unparse(n.test) == f'{gid} in si.adm_graph_ids']
     if not ing:
